@@ -3,9 +3,12 @@
 package env
 
 import (
+	"bufio"
+	"bytes"
 	"errors"
 	"fmt"
 	"io"
+	"strings"
 
 	"verif/mc/explore"
 )
@@ -45,16 +48,21 @@ type ReadEvent struct {
 // At the end of the stream: (0,end) by default, or one more (0,nil) while
 // zero reads remain.
 type Reader struct {
-	Data     []byte
-	End      EndKind
-	E        error // injected error for EndErr
-	C        *explore.Chooser
-	MaxZero  int // zero-length reads allowed per execution
-	NoShort  bool
+	Data    []byte
+	End     EndKind
+	E       error // injected error for EndErr
+	C       *explore.Chooser
+	MaxZero int // zero-length reads allowed per execution
+	NoShort bool
 	// Coarse limits the short counts offered at a Read call to
 	// {1, half, all but one}: for frames too large to try every count
-	Coarse bool
+	Coarse   bool
 	NoEndMix bool // never deliver data together with the end error
+	// Pat, when set, replaces the chooser by a fixed periodic schedule:
+	// ZeroBefore zero-length reads, then one chunk of at most Chunk bytes,
+	// repeated (used for long deliveries with hundreds of idle reads).
+	Pat     *Pattern
+	patZero int
 
 	Off    int
 	Calls  int
@@ -108,6 +116,19 @@ func (r *Reader) Read(p []byte) (int, error) {
 	if left < m {
 		m = left
 	}
+	if r.Pat != nil {
+		if r.patZero < r.Pat.ZeroBefore {
+			r.patZero++
+			return r.note(len(p), 0, nil)
+		}
+		r.patZero = 0
+		if r.Pat.Chunk > 0 && m > r.Pat.Chunk {
+			m = r.Pat.Chunk
+		}
+		copy(p, r.Data[r.Off:r.Off+m])
+		r.Off += m
+		return r.note(len(p), m, nil)
+	}
 	if r.C == nil {
 		copy(p, r.Data[r.Off:r.Off+m])
 		r.Off += m
@@ -155,6 +176,9 @@ func (r *Reader) Read(p []byte) (int, error) {
 		return r.note(len(p), m, r.endErr())
 	}
 }
+
+// Pattern is a fixed periodic delivery schedule.
+type Pattern struct{ Chunk, ZeroBefore int }
 
 // AfterEndOrEnded reports whether the end error has been returned by some call.
 func (r *Reader) AfterEndOrEnded() bool { return r.ended }
@@ -216,3 +240,133 @@ func (w *Writer) Write(p []byte) (int, error) {
 
 // IsInjected reports whether err is (wraps) e.
 func IsInjected(err, e error) bool { return errors.Is(err, e) }
+
+// ---------------------------------------------------------------------------
+// Reader kinds: the same byte stream handed to the code under test through
+// the reader implementations a program may really pass ("through any
+// reader"): a decoder may special-case concrete types (*bytes.Buffer,
+// *bufio.Reader, ...) or optional interfaces (io.ByteReader, Peek/Discard,
+// io.WriterTo), so each of them is a distinct environment.
+
+// Kind selects a reader implementation.
+type Kind int
+
+const (
+	KRaw             Kind = iota // the scripted reader itself
+	KBufio16                     // *bufio.Reader, 16-byte buffer, over the scripted reader
+	KBufio4096                   // *bufio.Reader, 4096-byte buffer, over the scripted reader
+	KBufioPrefetched             // *bufio.Reader that already holds data when handed over (Peek(1) done)
+	KRich                        // own type offering ReadByte/UnreadByte/Peek/Discard/Buffered/WriteTo over the scripted reader
+	KLimited                     // *io.LimitedReader over the scripted reader (limit far beyond the stream)
+	KBytesBuffer                 // *bytes.Buffer holding the stream (contiguous by construction)
+	KBytesReader                 // *bytes.Reader
+	KStringsReader               // *strings.Reader
+	NKinds
+)
+
+func (k Kind) String() string {
+	return [...]string{"raw", "bufio16", "bufio4096", "bufio-prefetched", "rich", "limited", "bytes.Buffer", "bytes.Reader", "strings.Reader"}[k]
+}
+
+// Scripted reports whether the kind draws from the scripted reader (so
+// that fragmentation and injected errors apply); the others hold the whole
+// stream and can only end with io.EOF.
+func (k Kind) Scripted() bool { return k <= KLimited }
+
+// AllKinds lists every kind; ScriptedKinds those over the scripted reader.
+func AllKinds() []Kind {
+	ks := make([]Kind, 0, NKinds)
+	for k := KRaw; k < NKinds; k++ {
+		ks = append(ks, k)
+	}
+	return ks
+}
+
+// Wrap hands the stream of src to the caller through the given kind.
+func Wrap(k Kind, src *Reader) io.Reader {
+	switch k {
+	case KBufio16:
+		return bufio.NewReaderSize(src, 16)
+	case KBufio4096:
+		return bufio.NewReaderSize(src, 4096)
+	case KBufioPrefetched:
+		br := bufio.NewReaderSize(src, 4096)
+		br.Peek(1)
+		return br
+	case KRich:
+		return &Rich{br: bufio.NewReaderSize(src, 4096)}
+	case KLimited:
+		return io.LimitReader(src, 1<<40)
+	case KBytesBuffer:
+		return bytes.NewBuffer(append([]byte(nil), src.Data...))
+	case KBytesReader:
+		return bytes.NewReader(append([]byte(nil), src.Data...))
+	case KStringsReader:
+		return strings.NewReader(string(src.Data))
+	}
+	return src
+}
+
+// Rich is a reader of its own type that honestly implements the optional
+// interfaces a decoder may probe for.
+type Rich struct{ br *bufio.Reader }
+
+func (r *Rich) Read(p []byte) (int, error)         { return r.br.Read(p) }
+func (r *Rich) ReadByte() (byte, error)            { return r.br.ReadByte() }
+func (r *Rich) UnreadByte() error                  { return r.br.UnreadByte() }
+func (r *Rich) Peek(n int) ([]byte, error)         { return r.br.Peek(n) }
+func (r *Rich) Discard(n int) (int, error)         { return r.br.Discard(n) }
+func (r *Rich) Buffered() int                      { return r.br.Buffered() }
+func (r *Rich) WriteTo(w io.Writer) (int64, error) { return r.br.WriteTo(w) }
+
+// ---------------------------------------------------------------------------
+// Error kinds: the injected transport error as the different shapes real
+// transports produce. Each is a fresh value; identity is what errors.Is
+// must preserve.
+
+// ErrKind selects the shape of an injected error.
+type ErrKind int
+
+const (
+	EPlain           ErrKind = iota // opaque error
+	EWrapsEOF                       // Unwrap() == io.EOF (e.g. "read tcp ...: EOF")
+	EWrapsUnexpEOF                  // Unwrap() == io.ErrUnexpectedEOF
+	ENetTemporary                   // Timeout() and Temporary() report true (net.Error shape)
+	EWrapsShortWrite                // Unwrap() == io.ErrShortWrite
+	NErrKinds
+)
+
+func (k ErrKind) String() string {
+	return [...]string{"plain", "wraps-EOF", "wraps-ErrUnexpectedEOF", "net-temporary", "wraps-ErrShortWrite"}[k]
+}
+
+type wrapErr struct {
+	tag   string
+	inner error
+}
+
+func (e *wrapErr) Error() string {
+	return "injected transport failure " + e.tag + ": " + e.inner.Error()
+}
+func (e *wrapErr) Unwrap() error { return e.inner }
+
+type netErr struct{ tag string }
+
+func (e *netErr) Error() string   { return "injected transport failure " + e.tag + " (i/o timeout)" }
+func (e *netErr) Timeout() bool   { return true }
+func (e *netErr) Temporary() bool { return true }
+
+// NewError returns a fresh injected error of the given kind.
+func NewError(k ErrKind, tag string) error {
+	switch k {
+	case EWrapsEOF:
+		return &wrapErr{tag, io.EOF}
+	case EWrapsUnexpEOF:
+		return &wrapErr{tag, io.ErrUnexpectedEOF}
+	case ENetTemporary:
+		return &netErr{tag}
+	case EWrapsShortWrite:
+		return &wrapErr{tag, io.ErrShortWrite}
+	}
+	return &InjectedError{Tag: tag}
+}
